@@ -57,17 +57,26 @@ type Sched struct {
 	Forced   []int // replay: choices to force (indices modulo the runnable-set size)
 	Steps    int
 	MaxSteps int
+	// Sticky is the probability of letting the running task continue at a
+	// scheduling point it is not blocked at (uniform choice otherwise). It is
+	// drawn per run: uniform switching almost never starves a task for long,
+	// and some races need exactly that.
+	Sticky   float64
 	Deadlock string // non-empty: deadlock verdict naming what each task waits for
 	aborted  bool
 	allDone  chan struct{}
 	OnSwitch func(from, to string, site string)
 	// Monitor, if set, is called on every Touch (C15 mutual-exclusion monitor).
-	Monitor func(task string, kind string, write bool, held map[any]int)
+	Monitor func(task string, kind string, what string, held map[any]int)
+	// OnAcquire, if set, is called when a task has taken a lock.
+	OnAcquire func(task string, lock any, site string)
 }
 
 // NewSched creates an explore-mode scheduler with its own PRNG stream.
 func (w *World) NewSched(label string) *Sched {
-	return &Sched{w: w, rng: NewRand(Mix(w.Seed, "sched/"+label)), MaxSteps: 200000, allDone: make(chan struct{})}
+	s := &Sched{w: w, rng: NewRand(Mix(w.Seed, "sched/"+label)), MaxSteps: 200000, allDone: make(chan struct{})}
+	s.Sticky = []float64{0, 0, 0.5, 0.9, 0.97, 0.995}[s.rng.Intn(6)]
+	return s
 }
 
 // SetSched installs (or removes, with nil) the explore-mode scheduler.
@@ -97,6 +106,7 @@ func (s *Sched) Spawn(name string, f func()) {
 			s.mu.Lock()
 			t.done = true
 			s.mu.Unlock()
+			s.progress()
 			s.switchFrom(t, "exit", true)
 		}()
 		if !s.isAborted() {
@@ -186,6 +196,13 @@ func (s *Sched) pickAndWake(from *task, site string) *task {
 		idx = s.Forced[n] % len(runnable)
 	} else {
 		idx = s.rng.Intn(len(runnable))
+		if from != nil && !from.done && from.spins == 0 && s.Sticky > 0 && s.rng.Float64() < s.Sticky {
+			for i, t := range runnable {
+				if t == from {
+					idx = i
+				}
+			}
+		}
 	}
 	s.Choices = append(s.Choices, idx)
 	next := runnable[idx]
@@ -243,10 +260,18 @@ func Yield(site string) {
 	if t == nil {
 		return
 	}
-	s.mu.Lock()
-	t.spins = 0
-	s.mu.Unlock()
+	s.progress()
 	s.switchFrom(t, site, false)
+}
+
+// progress: some task got somewhere, so whatever the others failed to get so
+// far may be available now: their failed attempts no longer count as stuck.
+func (s *Sched) progress() {
+	s.mu.Lock()
+	for _, t := range s.tasks {
+		t.spins = 0
+	}
+	s.mu.Unlock()
 }
 
 func yieldBlocked(s *Sched, what string) {
@@ -294,8 +319,8 @@ func noteHeld(s *Sched, l any, d int) {
 	if t.held[l] <= 0 {
 		delete(t.held, l)
 	}
-	t.spins = 0
 	s.mu.Unlock()
+	s.progress()
 }
 
 // Lock replaces x.Lock().
@@ -313,6 +338,11 @@ func Lock(l Locker, site string) {
 		}
 	}
 	noteHeld(s, l, 1)
+	if s.OnAcquire != nil {
+		if t := s.current(); t != nil {
+			s.OnAcquire(t.name, l, site)
+		}
+	}
 }
 
 // Unlock replaces x.Unlock().
@@ -358,10 +388,13 @@ func RUnlock(l RWLocker, site string) {
 	Yield("after-runlock " + site)
 }
 
-// Touch is the access probe of the C15 mutual-exclusion monitor.
-func Touch(kind string, write bool) {
+// Touch is the access probe of the C15 mutual-exclusion monitor: verifgen
+// puts one at the top of every method of the cache and policy types. Outside
+// explore mode it does nothing. A task that holds no lock at all yields at
+// every probe, so that unprotected accesses of different tasks interleave.
+func Touch(kind, what string) {
 	s := curSched()
-	if s == nil || s.Monitor == nil {
+	if s == nil {
 		return
 	}
 	t := s.current()
@@ -369,13 +402,48 @@ func Touch(kind string, write bool) {
 		return
 	}
 	s.mu.Lock()
-	held := make(map[any]int, len(t.held))
-	for k, v := range t.held {
-		held[k] = v
+	n := len(t.held)
+	var held map[any]int
+	if s.Monitor != nil {
+		held = make(map[any]int, n)
+		for k, v := range t.held {
+			held[k] = v
+		}
 	}
 	name := t.name
+	mon := s.Monitor
 	s.mu.Unlock()
-	s.Monitor(name, kind, write, held)
+	if mon != nil {
+		mon(name, kind, what, held)
+	}
+	if n == 0 {
+		Yield("touch " + what)
+	}
+}
+
+// Recv replaces a single-value channel receive in instrumented code: in
+// explore mode a loop of non-blocking attempts and yields, so that a task
+// waiting for a value blocks nobody and the scheduler sees what it waits for.
+func Recv[T any](ch <-chan T, site string) T {
+	s := curSched()
+	if s == nil || s.current() == nil {
+		return <-ch
+	}
+	Yield("before-recv " + site)
+	for {
+		if ch != nil {
+			select {
+			case v := <-ch:
+				s.progress()
+				return v
+			default:
+			}
+		}
+		yieldBlocked(s, "recv "+site)
+		if s.isAborted() {
+			select {}
+		}
+	}
 }
 
 // WaitChan blocks the current task (cooperatively) until ready() reports true.
@@ -391,10 +459,5 @@ func WaitUntil(what string, ready func() bool) {
 			select {}
 		}
 	}
-	t := s.current()
-	if t != nil {
-		s.mu.Lock()
-		t.spins = 0
-		s.mu.Unlock()
-	}
+	s.progress()
 }
